@@ -380,6 +380,8 @@ def main(tier):
     check_inversion(rep)
     import crcfold
     crcfold.check(rep, 400)
+    import copypair
+    copypair.check(rep, 46)
     import bounds
     bounds.check(rep, {'crc', 'crc_copy', 'adler'}, 'CRC', 30)
     bounds.check_len_width(rep, {'crc', 'crc_copy', 'adler'}, 'CRC', 31)
